@@ -17,7 +17,7 @@ TrNames == { <<>>, <<"a">>, <<"a", "b">>, <<"a", "b", "c">>, <<"a", "c">>, <<"b"
 TrHandlers == 1..64
 TrNone == {}
 TrVerdicts == {"PASS", "FAIL", "TIMEOUT", "SILENCE", "BYPASS", "T", "F"}
-TrReprs == {"uri", "strlist", "byteslist", "bytearraylist", "memviewlist", "wire"}
+TrReprs == {"uri", "strlist", "byteslist", "bytearraylist", "memviewlist", "wire", "wirebuf", "mutbuf"}
 TrEnvs == {"bare", "lp", "lph", "lpo"}
 TrJunk == {"junk"}
 
